@@ -2,6 +2,7 @@ package uu
 
 //verif:harness C19 quick
 func H_C19_masks() {
+	vRecordGlobals() // reads and writes of package variables take part in the lock-discipline query
 	id := RandomID()
 	vAssert("version-4", id.Version() == 4)
 	vAssert("variant-1", id.Variant() == 1)
